@@ -26,8 +26,11 @@ def hexDigit (n : Nat) : Char := if n < 10 then Char.ofNat (48 + n) else Char.of
 def fmt02x : Str := ['\\','x','{',':','0','2','x','}']
 /-- the `_ =>` arm of quote_value: `format!("\\x{:02x}", c as isize)`; a format the model does not
     know is copied literally (the correspondence check then disagrees) -/
+def fmtx : Str := ['\\','x','{',':','x','}']
 def defaultArm (c : Char) : Str :=
   if Gen.quoteDefaultFmt == fmt02x then ['\\', 'x', hexDigit (c.toNat / 16), hexDigit (c.toNat % 16)]
+  else if Gen.quoteDefaultFmt == fmtx then   -- unpadded hexadecimal
+    (if c.toNat < 16 then ['\\', 'x', hexDigit c.toNat] else ['\\', 'x', hexDigit (c.toNat / 16), hexDigit (c.toNat % 16)])
   else Gen.quoteDefaultFmt
 
 def escChar (c : Char) : Str :=
